@@ -475,10 +475,7 @@ func genAtom(g G, c *Corpus, o QueryOpts) (QSpec, []string) {
 		return QSpec{Op: "lang", Pat: Pick(g, []string{"Go", "Python", "Markdown", "Text", "C", "Rust"}, "lang")}, []string{"lang"}
 	case k < 76:
 		pat := Pick(g, []string{"HEAD", "main", "dev", "release", "feature/x", "v1.0", "e", "", "nope", "feature"}, "bpat")
-		// An exact match on the empty branch name is degenerate (no branch can
-		// have it) and constant-folded to TRUE everywhere; only the
-		// non-exact form, whose naive meaning is also TRUE, is generated.
-		exact := g.Bool(50, "bexact") && pat != ""
+		exact := g.Bool(50, "bexact")
 		return QSpec{Op: "branch", Pat: pat, Exact: exact}, []string{"branch"}
 	case k < 80 && o.ConstAtoms:
 		return QSpec{Op: "const", Val: g.Bool(50, "constv")}, []string{"const"}
